@@ -27,6 +27,7 @@ type SimCfg struct {
 	CutKey  map[string][]string // label pattern -> extra key cells
 	Stack   string
 	Top     string
+	Resync  bool // handler machines: after a handler consumed a value the code re-reads its last byte
 }
 
 type Sim struct {
@@ -64,6 +65,8 @@ func parseSimCfg(fc *FuncContract) (*SimCfg, error) {
 		case k == "delta":
 			n, _ := strconv.ParseInt(v, 10, 64)
 			c.Delta = n
+		case k == "resync":
+			c.Resync = v == "1"
 		case k == "stack":
 			c.Stack = v
 		case k == "top":
@@ -136,7 +139,14 @@ func (ex *Exec) stepAxiom(arr, k *Term) *Term {
 	done := q8(tab.Done())
 	enters := And(Not(Eq(q, done)), Eq(ex.Rq(arr, k1), done))
 	e1 := Ite(enters, Ite(App("spec.endbefore", BoolSort, q, b), k, k1), ex.Rend(arr, k))
-	return And(Eq(ex.Rq(arr, k1), q1), Eq(ex.Rdepth(arr, k1), d1), Eq(ex.Rframe(arr, k1), f1), Eq(ex.Rend(arr, k1), e1))
+	ax := And(Eq(ex.Rq(arr, k1), q1), Eq(ex.Rdepth(arr, k1), d1), Eq(ex.Rframe(arr, k1), f1), Eq(ex.Rend(arr, k1), e1))
+	if ex.simVariant == "travobj" {
+		quote := Eq(b, BVI(8, '"'))
+		keyOpen := And(qnamed(q, "ObjFirst", "ObjKey"), Eq(d, I64(1)), quote)
+		keyClose := And(qnamed(q, "InKey.Str"), Eq(d, I64(1)), quote)
+		ax = And(ax, Eq(ex.Rks(arr, k1), Ite(keyOpen, k, ex.Rks(arr, k))), Eq(ex.Rke(arr, k1), Ite(keyClose, k1, ex.Rke(arr, k))))
+	}
+	return ax
 }
 
 func (ex *Exec) initAxiom(arr *Term) *Term {
@@ -218,6 +228,14 @@ func init() {
 	specFns["Rend"] = func(e *Env, a []TV, n *ast.CallExpr) TV {
 		arr, off, _ := sliceArgs(e, a[0], n)
 		return TV{V: Sub(e.ex.Rend(arr, Add(off, Resize(argTerm(e, a[1], n), 64, true))), off), Signed: true}
+	}
+	specFns["Rks"] = func(e *Env, a []TV, n *ast.CallExpr) TV {
+		arr, off, _ := sliceArgs(e, a[0], n)
+		return TV{V: Sub(e.ex.Rks(arr, Add(off, Resize(argTerm(e, a[1], n), 64, true))), off), Signed: true}
+	}
+	specFns["Rke"] = func(e *Env, a []TV, n *ast.CallExpr) TV {
+		arr, off, _ := sliceArgs(e, a[0], n)
+		return TV{V: Sub(e.ex.Rke(arr, Add(off, Resize(argTerm(e, a[1], n), 64, true))), off), Signed: true}
 	}
 	specFns["accepts"] = func(e *Env, a []TV, n *ast.CallExpr) TV {
 		arr, off, ln := sliceArgs(e, a[0], n)
@@ -394,7 +412,7 @@ func (s *Sim) setupCuts() {
 	}
 }
 
-func (s *Sim) posTerm(c *Cut, st *State) *Term {
+func (s *Sim) rawPos(c *Cut, st *State) *Term {
 	env := s.fp.ex.cellEnv(st, false)
 	var hs []*Term
 	var qs []*QFact
@@ -405,6 +423,32 @@ func (s *Sim) posTerm(c *Cut, st *State) *Term {
 		return I64(0)
 	}
 	return Resize(t, 64, true)
+}
+
+// resyncing: the machine is about to re-read the last byte of a value the handler consumed.
+func (s *Sim) resyncing(c *Cut, st *State) *Term {
+	if !s.cfg.Resync || s.hasFixedPos(c) {
+		return False
+	}
+	rp, ok := st.ghost["rspos"]
+	if !ok {
+		return False
+	}
+	return Eq(s.rawPos(c, st), rp)
+}
+
+func (s *Sim) hasFixedPos(c *Cut) bool {
+	for pat := range s.cfg.CutPos {
+		if matchLabel(pat, c.Label) {
+			return true
+		}
+	}
+	return false
+}
+
+func (s *Sim) posTerm(c *Cut, st *State) *Term {
+	p := s.rawPos(c, st)
+	return Ite(s.resyncing(c, st), Add(p, I64(1)), p)
 }
 
 // keyTerms: the tuple whose possible values are tracked at the cut: extra cells, then R.q(pos).
@@ -421,6 +465,9 @@ func (s *Sim) keyTerms(c *Cut, st *State) []*Term {
 			t = I64(0)
 		}
 		out = append(out, t)
+	}
+	if s.cfg.Resync {
+		out = append(out, Ite(s.resyncing(c, st), I64(1), I64(0)))
 	}
 	out = append(out, s.fp.ex.Rq(s.arr, s.posTerm(c, st)))
 	return out
@@ -536,8 +583,24 @@ func (s *Sim) fixedAtoms(c *Cut) []*Atom {
 		if !ok {
 			return True
 		}
-		return Eq(top, Sub(ex.Rdepth(s.arr, s.posTerm(c, st)), I64(s.cfg.Delta)))
+		k := I64(0)
+		if s.cfg.Resync {
+			rsb := st.ghost["rsb"]
+			if rsb != nil {
+				k = Ite(And(s.resyncing(c, st), Or(Eq(rsb, BVI(8, ']')), Eq(rsb, BVI(8, '}')))), I64(1), I64(0))
+			}
+		}
+		return Eq(top, Add(Sub(ex.Rdepth(s.arr, s.posTerm(c, st)), I64(s.cfg.Delta)), k))
 	}))
+	if s.cfg.Resync {
+		out = append(out, mk("sim:resync-byte", func(st *State) *Term {
+			rsb := st.ghost["rsb"]
+			if rsb == nil {
+				return True
+			}
+			return Implies(s.resyncing(c, st), Eq(Select(s.arr, s.rawPos(c, st)), rsb))
+		}))
+	}
 	out = append(out, mk("sim:ctx-consistent", func(st *State) *Term {
 		pos := s.posTerm(c, st)
 		q := ex.Rq(s.arr, pos)
@@ -650,3 +713,73 @@ func matchSpecName(pat, name string) bool {
 	}
 	return pat == name
 }
+
+// memberStart: at position k the spec run begins a member value of the traversed container
+// (depth 1, in a state that expects a value, and the byte starts a value).
+func (s *Sim) memberStart(k *Term) *Term {
+	ex := s.fp.ex
+	tab := s.tab
+	q := ex.Rq(s.arr, k)
+	b := Select(s.arr, k)
+	var states *Term
+	if s.cfg.Variant == "travobj" {
+		states = qnamed(q, "ObjValue")
+	} else {
+		states = qnamed(q, "ArrFirst", "ArrValue")
+	}
+	isws := byteIn(b, ' ', '\t', '\r', '\n')
+	nq := App("spec.stepq", BV(8), q, b)
+	op := App("spec.stepop", BV(8), q, b)
+	return And(states, Eq(ex.Rdepth(s.arr, k), I64(1)), Not(isws), Not(Eq(op, q8(rjvSpecOpPop))), Not(Eq(nq, q8(tab.Dead()))))
+}
+
+// eventObligations (C07): every handler call is at a member start with the right arguments, and
+// every member start is a handler call.
+func (s *Sim) eventObligations(pe *PathEnd) []goalItem {
+	fp := s.fp
+	if fp.opts.Mode != "wellbehaved" || pe.From == nil {
+		return nil
+	}
+	fnName := fp.eng.displayName(fp.fn)
+	from := fp.fromLabel(pe)
+	var items []goalItem
+	start := pe.Start.clone()
+	rs := s.resyncing(pe.From, start)
+	k := s.rawPos(pe.From, start)
+	inv := invokes(pe)
+	for n, ev := range inv {
+		mp := ev.Info["memberpos"]
+		if mp == nil {
+			continue
+		}
+		g := []*Term{s.memberStart(mp), Eq(mp, k), Not(rs)}
+		name := "array-member"
+		if s.cfg.Variant == "travobj" && len(ev.Args) == 2 {
+			name = "object-member"
+			if f, ok := ev.Args[0].(*SliceV); ok {
+				ks := fp.ex.Rks(s.arr, mp)
+				ke := fp.ex.Rke(s.arr, mp)
+				g = append(g, BoolC(f.Reg == s.reg), Eq(f.Off, Add(ks, I64(1))), Eq(f.Len, Sub(Sub(ke, ks), I64(2))))
+			} else {
+				g = append(g, False)
+			}
+		}
+		if d, ok := ev.Args[len(ev.Args)-1].(*SliceV); ok {
+			g = append(g, BoolC(d.Reg == s.reg), Eq(d.Off, mp), Eq(Add(d.Off, d.Len), s.dlen))
+		}
+		items = append(items, goalItem{name: fmt.Sprintf("%s/%s/event/%s-call#%d-at-member-start-with-member-arguments", fnName, from, name, n+1), kind: "event", t: And(g...), nhyp: ev.NPC})
+	}
+	if !s.hasFixedPos(pe.From) {
+		if len(inv) == 0 {
+			items = append(items, goalItem{name: fmt.Sprintf("%s/%s/event/member-start-implies-handler-call", fnName, from), kind: "event", t: Not(And(Not(rs), s.memberStart(k))), nhyp: -1})
+		} else if len(inv) > 1 {
+			items = append(items, goalItem{name: fmt.Sprintf("%s/%s/event/one-handler-call-per-member", fnName, from), kind: "event", t: False, nhyp: -1})
+		}
+	}
+	return items
+}
+
+// key registers of the object traversal (positions of the opening quote of the current key and
+// of the byte after its closing quote), part of the same fold
+func (ex *Exec) Rks(arr, k *Term) *Term { return App(ex.rName("ks", arr), BV(64), k) }
+func (ex *Exec) Rke(arr, k *Term) *Term { return App(ex.rName("ke", arr), BV(64), k) }
